@@ -31,6 +31,10 @@ MUTANTS: list[tuple[str, str, Any, str, str]] = [
 	('C05', 'store-ignores-enabled', 'rogw/tranp/semantics/reflection/persistent.py', 'return self.setting.enabled and module.in_storage() and not self.sources.exists(filepath)', 'return module.in_storage() and not self.sources.exists(filepath)'),
 	('C05', 'load-cache-swallows-errors', 'rogw/tranp/cache/cache.py', "		with open(cache_path, mode='rb') as f:\n			return self._stored.load(f)\n", "		try:\n			with open(cache_path, mode='rb') as f:\n				return self._stored.load(f)\n		except Exception:\n			import glob as _g\n			for other in sorted(_g.glob(os.path.join(os.path.dirname(cache_path), '*.json'))):\n				try:\n					with open(other, mode='rb') as f:\n						return self._stored.load(f)\n				except Exception:\n					pass\n			raise\n"),
 	('C05', 'restore-then-continue', 'rogw/tranp/semantics/processors/restore_symbols.py', '			self.persistor.restore(module, db)\n			return False\n', '			self.persistor.restore(module, db)\n			return True\n'),
+	('C06', 'can-transpile-compares-app-version-only', 'rogw/tranp/bin/transpile.py', '		return new_meta != old_meta\n', '		return new_meta.app_version != old_meta.app_version\n'),
+	('C06', 'header-never-found-in-existing-output', 'rogw/tranp/data/meta/header.py', '		header_begin = content.find(MetaHeader.Tag)\n', '		header_begin = content.find(MetaHeader.Tag, 3)\n'),
+	('C06', 'writer-retry-removed', 'rogw/tranp/file/writer.py', '		try:\n			self._flush(abs_filepath)\n		except PermissionError:\n			# XXX 連続して出力すると稀にエラーが発生するため、若干間隔を空けて再出力を試行\n			time.sleep(0.1)\n			self._flush(abs_filepath)\n', '		self._flush(abs_filepath)\n'),
+	('C06', 'header-hash-from-mtime', 'rogw/tranp/providers/module.py', "		return {'hash': sources.hash(filepath), 'path': module_path}\n", "		return {'hash': str(int(sources.mtime(filepath))), 'path': module_path}\n"),
 	('C07', 'disk-branch-does-not-wrap-parser-errors', 'rogw/tranp/implements/syntax/lark/parser.py', '			try:\n				return EntryStored(EntryOfLark(parser.parse(self.__source_provider(module_path))))\n			except Exception as e:\n				raise Errors.Syntax(source_path, e) from e\n', '			return EntryStored(EntryOfLark(parser.parse(self.__source_provider(module_path))))\n'),
 	('C07', 'memory-branch-does-not-wrap-parser-errors', 'rogw/tranp/implements/syntax/lark/parser.py', '			try:\n				return EntryOfLark(parser.parse(self.__source_provider(module_path)))\n			except Exception as e:\n				raise Errors.Syntax(source_path, e) from e\n', '			return EntryOfLark(parser.parse(self.__source_provider(module_path)))\n'),
 	('C07', 'procedure-reraises-foreign-exceptions', 'rogw/tranp/semantics/procedure.py', "		except Exception as e:\n			raise Errors.Fatal(node, 'Unhandled error', e) from e\n", '		except Exception as e:\n			raise\n'),
